@@ -2,7 +2,7 @@ SPEC = {
     "id": "C12",
     "coq_props": ["Properties/C12.v", "Corr/C12.v"],
     "module": "MS.Properties.C12",
-    "theorems": ["C12_slots", "C12_fixed", "C12_variable", "C12_refuted", "C12_refuted_variable", "C12_refuted_last_span", "C12_refuted_scaled"],
+    "theorems": ["C12_slots", "C12_fixed", "C12_variable", "C12_refuted_variable", "C12_refuted_scaled"],
     "corr_require": "Require Import MS.Corr.C12.",
     "agrees": "C12.agrees",
     "in_domain": "C12.in_domain",
@@ -32,16 +32,15 @@ SPEC = {
         "chunking (8192 records per read, seekBackward) is not in the model: it is what the correspondence exercises, "
         "including > 8192 and > 16384 live slots in one file",
         "snappy, tick decoding and the x4/x2 buffer arithmetic of readSecondStage are outside the model",
-        "class variable-last-limit-spans-year-files: the implementation reads foreign index triples; the model says Rejected (the usual "
-        "outcome: EOF / snappy error) and the correspondence accepts whatever the implementation returned in exactly this class",
     ],
     "level": "proof",
     "level_text": "Coq theorems: C12_slots — for EVERY stored slot state, range, direction and N (N*recLen < 2^31) the limited scan of "
                   "read/readForward/readBackward returns the first/last N slots of the unlimited scan (induction over the year files); "
                   "C12_fixed — hence ExecuteQuery on fixed buckets, when the key names a queryable timeframe; C12_variable — for variable "
                   "buckets after trimResultsToRange/trimResultsToLimit under guard_var (time-ordered records, limit covers the scanned "
-                  "intervals or the bound on the counting side cuts nothing; no over-read of a backward scan in an earlier year "
-                  "file). C12_refuted_variable (F12), C12_refuted_last_span and C12_refuted_scaled exhibit the three defect classes. Model tied to the code by differential in-Coq evaluation on every run.",
+                  "intervals or the bound on the counting side cuts nothing). C12_refuted_variable (F12) and C12_refuted_scaled exhibit "
+                  "the two defect classes (a third, variable-last-limit-spans-year-files, found here, was fixed in /repo ca55ae9: "
+                  "C12_last_span_regression). Model tied to the code by differential in-Coq evaluation on every run.",
     "level_note": "No axioms. Trusted: Coq kernel/VM, gen translator, harness. Modelled not verified: executor/scanner.go read/readForward/"
                   "readBackward/trimResultsToRange/trimResultsToLimit, readvariable.go (as record concatenation), frontend/query.go "
                   "ExecuteQuery, utils/timeframe.go QueryableTimeframe/QueryableNrecords.",
